@@ -56,6 +56,7 @@ DEVICES = {
 }
 # the physical device with room for very little: calls get refused for length, not for mode
 DEVICES["phys_short"] = dict(DEVICES["phys"], name="PhysS", max_sequence_duration=150)
+REG_INT = dict(dim=2, ids=[0, 1, 2], coords=[[0.0, 0.0], [6.0, 0.0], [0.0, 6.0]])
 REG = dict(dim=2, ids=["q0", "q1", "q2"], coords=[[0.0, 0.0], [6.0, 0.0], [0.0, 6.0]])
 PULSE = dict(k="const_pulse", d=52, amp=2.0, det=-1.0, phase=0.0)
 
@@ -73,7 +74,10 @@ def call_seqs(draw, tier="quick"):
     for _ in range(n):
         k = draw(st.sampled_from(ALPHABET + ["declare", "declare", "add", "enable_eom"]))
         calls.append(dict(kind=k, a=draw(st.integers(0, 7)), b=draw(st.integers(0, 7))))
-    return dict(dev=dev, calls=calls)
+    out = dict(dev=dev, calls=calls)
+    if draw(st.integers(0, 3)) == 0:
+        out["reg"] = "int"  # integer qubit ids 0..2, single targets given as the bare id
+    return out
 
 
 class M6:
@@ -363,7 +367,10 @@ def run_ro(it: build.Interp, op: dict):
 def check(case, ctx: Ctx):
     C = "C13.typestate"
     m = M6(case["dev"])
-    prog = dict(device=DEVICES[case["dev"]], register=REG, ops=[])
+    int_ids = case.get("reg") == "int"
+    prog = dict(device=DEVICES[case["dev"]], register=REG_INT if int_ids else REG, ops=[])
+    if int_ids:
+        ctx.label("integer_qubit_ids")
     it = build.Interp(prog)
     seq = it.seq
     n_ref = n_mode = 0
@@ -373,6 +380,11 @@ def check(case, ctx: Ctx):
         if made is None:
             continue
         op, verdict = made
+        if int_ids:
+            if op["op"] == "declare" and op.get("initial_target") and len(op["initial_target"]) == 1:
+                op["it_scalar"] = True
+            if op.get("q") == "q0":
+                op["q"] = 0
         mode_before = (m.mode, m.measured, m.param, tuple(c["in_eom"] for c in m.names.values()))
         if op["op"] == "ro":
             status, exc = run_ro(it, op)
